@@ -226,7 +226,57 @@ def r6_info_is_about_the_leaf(ctx):
         ctx.ob("R18.6", "from_pem_file:delegates-to-from_pem_bytes", okf, "", "from_pem_file reads the file and analyses it with from_pem_bytes" if okf else "from_pem_file does not use from_pem_bytes")
 
 
+PEM_SOURCES = ("rustls_pemfile::certs", "rustls_pemfile::pkcs8_private_keys", "rustls_pemfile::rsa_private_keys", "rustls_pemfile::ec_private_keys",
+               "rustls_pemfile::private_key", "rustls_pemfile::read_all", "rustls_pemfile::read_one")
+ERROR_DROPPING = ("flatten", "filter_map", "flat_map", "map_while", "take_while", "skip_while", "filter", "find_map")
+
+
+def r7_strict_parsing_and_fixed_paths(ctx):
+    """(a) the files are parsed strictly: a PEM block that does not parse fails the load instead of being skipped (a chain file
+    caught half written must be refused, not served without its issuing CA); (b) every reload reads the paths the reloader was
+    configured with: they are not rewritten (e.g. canonicalised, which pins the symlink targets of start-up)"""
+    n = 0
+    bad = []
+    for key, body in ctx.P.scan():
+        if not key.startswith(("util::tls::", "util::cert_reloader::", "util::cert_analyzer::")):
+            continue
+        o = None
+        for c in body.calls():
+            last = (c.norm or "").split("::")[-1]
+            if last not in ERROR_DROPPING or "Iterator" not in (c.norm or "") or not c.args:
+                continue
+            o = o or ctx.origins(body)
+            t = o.of_operand(c.args[0])
+            ts = [t] + [o.init_of(s_[2]) for s_ in subterms(t) if isinstance(s_, tuple) and s_ and s_[0] == "var" and len(s_) > 2]
+            if any(is_call_term(s_, *PEM_SOURCES) for t_ in ts for s_ in subterms(t_)):
+                bad.append(c)
+        n += len(calls_norm(body, *PEM_SOURCES))
+    if ctx.floor("R18.7", "PEM item iterators in util::tls / cert_analyzer", n, 3):
+        ctx.ob("R18.7", "pem-parsing:errors-are-not-skipped", not bad, bad[0].site if bad else "", "%d PEM iterators, none passed through an error-dropping adaptor" % n if not bad else
+               "the PEM items are passed through `%s`, which silently drops blocks that fail to parse: a fullchain.pem caught half written (or with a damaged CA block) is accepted and the new leaf is served "
+               "without its chain, while the reload reports success" % bad[0].norm.split("::")[-1])
+    writes = []
+    nb = 0
+    for key, body in ctx.P.scan():
+        if not key.startswith("util::cert_reloader::"):
+            continue
+        nb += 1
+        for bi in sorted(body.reachable()):
+            for st in body.blocks[bi]["stmts"]:
+                if st["s"] == "assign" and any(e["p"] == "field" and e.get("name") in ("cert_path", "key_path") for e in st["place"]["proj"]):
+                    writes.append((key, st["span"]["line"]))
+        for c in body.calls():
+            if (c.norm or "").split("::")[-1] in ("canonicalize", "read_link"):
+                writes.append((key, c.line))
+    if ctx.floor("R18.7", "bodies of util::cert_reloader", nb, 5):
+        ctx.ob("R18.7", "reloader:configured-paths-are-never-rewritten", not writes, "src/util/cert_reloader.rs:%s" % writes[0][1] if writes else "",
+               "cert_path / key_path are only ever read" if not writes else
+               "%s rewrites / resolves the configured certificate paths (line %s): with a symlinked layout (certbot live/ -> archive/, Kubernetes ..data) every later reload re-reads the files the links pointed to at "
+               "start-up — it reports success and bumps the counters while the old certificate stays in service" % (writes[0][0].split("::{closure")[0], writes[0][1]))
+
+
 def run(ctx):
+    r7_strict_parsing_and_fixed_paths(ctx)
     r6_info_is_about_the_leaf(ctx)
     r1_r5_reload(ctx)
     r2_writers(ctx)
